@@ -30,7 +30,7 @@ MIN_NONTRIVIAL = {"quick": 200, "thorough": 3000}
 
 RULES7 = ["gmean", "hmean", "amean", "to_output_scale", "to_grad_input_scale", "to_left_grad_scale", "to_right_grad_scale"]
 COLLAPSE_OPS = ["gelu", "silu", "softmax", "matmul", "linear", "linear_readout", "conv1d", "add"]
-FIXED_OPS = ["silu_glu", "scaled_dot_product_attention"]
+FIXED_OPS = ["silu_glu", "scaled_dot_product_attention", "residual"]
 
 
 def gen_cases(tier: str, seed: int) -> List[Dict[str, Any]]:
@@ -179,6 +179,37 @@ def _name_class(name: str) -> str:
     return "not-an-attribute"
 
 
+def run_residual(case, ctx, rng) -> None:
+    """residual_split / residual_add / residual_apply carry a fixed constraint: forward and backward weights are the same pair,
+    so the gradient at the input must be the true derivative (finite differences) for every tau."""
+    import math
+    import torch
+    import unit_scaling.functional as U
+
+    ctx.count("evaluations")
+    r = rng.random()
+    tau = 1.0 if r < 0.1 else loguniform(rng, 1e-3, 1e3)
+    d = rng.choice([2, 3, 5])
+    shape = [rng.choice([1, 2, 3]) for _ in range(rng.randint(0, 2))] + [d]
+    g = torch.Generator().manual_seed(case["seed"])
+    W = torch.randn(d, d, generator=g, dtype=torch.float64) / math.sqrt(d)
+    x = torch.randn(shape, generator=g, dtype=torch.float64, requires_grad=True)
+    kind = rng.choice(["tanh_linear", "sin", "gelu"])
+    fn = {"tanh_linear": lambda t: torch.tanh(t @ W.T), "sin": lambda t: torch.sin(2.0 * t), "gelu": lambda t: torch.nn.functional.gelu(t @ W.T)}[kind]
+    for name, f in (("residual_apply", lambda t: U.residual_apply(fn, t, tau)),
+                    ("split-f-add", lambda t: U.residual_add(fn(U.residual_split(t, tau)[0]), U.residual_split(t, tau)[1], tau))):
+        ctx.count("gradcheck:run")
+        ctx.count("op:collapse-checked")
+        try:
+            ok = torch.autograd.gradcheck(f, (x,), eps=1e-6, atol=1e-7, rtol=1e-5, raise_exception=False, fast_mode=True)
+        except Exception as e:
+            ctx.violation(f"C05:residual:gradcheck-raises:{exc_key(e)}", repr(e), tau=tau)
+            return
+        if not ok:
+            ctx.violation(f"C05:residual:gradient-is-not-the-derivative:{name}", f"tau={tau}: analytical gradient disagrees with finite differences", tau=tau, branch=kind)
+    ctx.nontrivial(f"op|residual|{kind}|{len(shape)}|{int(round(math.log10(tau) * 2))}")
+
+
 def _flush(state, ctx) -> None:
     for k, v in state["counts"].items():
         ctx.count(k, v)
@@ -305,6 +336,8 @@ def run_op(case, ctx) -> None:
     from ..optable import OPS, run_fit
 
     rng = rng_for(case["seed"], "cfg")
+    if case["fn"] == "residual":
+        return run_residual(case, ctx, rng)
     op = OPS[case["fn"]]
     cfg = op.gen(rng)
     if case["fn"] == "add":
